@@ -1408,8 +1408,18 @@ class EArray(Engine):
         return self._obs(st, r)
 
     def ev_option(self, ev):
-        """options.bytealigned flipped between two operations: a reconfiguration an Array must not notice."""
+        """options.bytealigned flipped between two operations: a reconfiguration an Array must not notice.  options.lsb0 flipped:
+        the data stays as stored and is from now on read with the other bit numbering (the model re-reads it the same way)."""
         self._op = 'option'
+        if ev.get('name') == 'lsb0':
+            stored = self.to_stored_order(self.bits(), self.dt.w)
+            self.lsb0 = bool(ev.get('value'))
+            self.B.options.lsb0 = self.lsb0
+            self.items, self.trail = split(self.to_model_order(stored, self.dt.w), self.dt.w)
+            self.it = None
+            self.probe('option:lsb0-toggled')
+            self._verified = None
+            return {'st': 'ok', 'lsb0': self.lsb0}
         self.B.options.bytealigned = bool(ev.get('value'))
         self.probe('option:bytealigned')
         self._verified = None
@@ -1997,6 +2007,8 @@ class EArray(Engine):
                 'tb_kw': g.chance(0.5), 'tb_as': g.pick(['str', 'bits']), 'cls': g.pick(['Bits', 'BitArray'])}
 
     def g_option(self, g):
+        if g.chance(0.4):
+            return {'k': 'option', 'name': 'lsb0', 'value': not self.lsb0 if g.chance(0.85) else self.lsb0}
         return {'k': 'option', 'value': g.chance(0.6)}
 
     def g_poke_src(self, g):
